@@ -26,7 +26,9 @@ AllConfigs == MCConfigs \cup ClippedConfigs
 InDomain(c) == c.cont => c.start <= EffEnd(c)
 SimConfigs == {c \in AllConfigs : InDomain(c)}
 
-ErrLabels == {"429", "5xx", "net", "unavail"}
+\* "deadline" / "canceled": the request timed out or was abandoned on its own (an error wrapping context.DeadlineExceeded /
+\* context.Canceled) while the run's context is alive - a transient error like the others, to be retried
+ErrLabels == {"429", "5xx", "net", "unavail", "deadline", "canceled"}
 OneErr == {"5xx"}
 
 (* ---- exhaustive ---- *)
